@@ -13,6 +13,7 @@ import (
 // call translates a call instruction and returns the result terms (in the callee's declared result types).
 func (fr *Frame) call(st *State, call ssa.CallInstruction) []Term {
 	vc := fr.vc
+	vc.curReach = st.reach
 	c := call.Common()
 	if c.IsInvoke() {
 		return fr.invoke(st, call)
